@@ -208,6 +208,15 @@ func (u *Upstream) waitToSendAllDataPointsAndReceiveAllAck(ctx context.Context) 
 		return nil
 	}
 
+	// wake the wait loop below when either context ends; nothing else signals then
+	wake := func() {
+		u.receivedAck.L.Lock()
+		u.receivedAck.Broadcast()
+		u.receivedAck.L.Unlock()
+	}
+	defer context.AfterFunc(parentCtx, wake)()
+	defer context.AfterFunc(ctx, wake)()
+
 	u.receivedAck.L.Lock()
 	var err error
 	var remaining map[uint32]DataPointGroups
